@@ -146,6 +146,8 @@ EnsureGateway(net, st) ==
   ELSE LET desired ==
              IF st.match # ""
              THEN [net EXCEPT !.rtGenRules = 1, !.rtRules = (net.rtRules - net.rtGenRules) + 1]
+             \* without a generated canary Service the canary backendRef IS the stable one: it ends up with the canary weight
+             ELSE IF net.noCanarySvc THEN [net EXCEPT !.rtStableW = st.traffic]
              ELSE [net EXCEPT !.rtStableW = 100 - st.traffic, !.rtCanaryW = st.traffic]
        IN  IF desired = net THEN [net |-> net, ok |-> TRUE] ELSE [net |-> desired, ok |-> FALSE]
 
@@ -295,7 +297,15 @@ RemoveBatchRelease(s) ==
   ELSE [s |-> [s EXCEPT !.br = GoneBr], retry |-> TRUE]
 
 \* doCanaryFinalising(reason, waitReady): [s, done]
-DoFinalising(s0, reason, waitReady) ==
+GoneTr == [used |-> TRUE, exists |-> FALSE, phase |-> "", finalizer |-> FALSE, prog |-> 0, deleting |-> FALSE, obsOk |-> FALSE]
+\* finalizeTrafficRouting: drop this Rollout's progressing finalizer (a deleting object without finalizers is gone)
+FinalizeTR(s) ==
+  IF ~(s.tr.used /\ s.tr.exists /\ s.tr.prog > 0) THEN s
+  ELSE IF s.tr.deleting /\ ~s.tr.finalizer /\ s.tr.prog = 1 THEN [s EXCEPT !.tr = GoneTr]
+  ELSE [s EXCEPT !.tr.prog = s.tr.prog - 1]
+
+DoFinalising(sIn, reason, waitReady) ==
+  LET s0 == FinalizeTR(sIn) IN
   IF ~s0.ro.hasSub THEN [s |-> s0, done |-> TRUE]
   ELSE
   LET s1 == IF s0.wl.exists /\ s0.wl.inprog /\ s0.wl.genOk THEN [s0 EXCEPT !.wl.inprog = FALSE] ELSE s0   \* removeRolloutProgressingAnnotation
@@ -364,7 +374,13 @@ RoProgressing(s, old) ==
          LET s1 == [s EXCEPT !.ro = [EmptySub(s.ro) EXCEPT !.hasSub = TRUE, !.step = 1, !.next = NextIdx(s, 1), !.state = "BeforeStepUpgrade",
                                                          !.fresh = TRUE, !.hashOk = TRUE, !.hashSet = TRUE, !.canaryRev = WlCanaryRev(s),
                                                          !.stableRev = s.wl.stableRev, !.rid = WlRolloutID(s)]]
-         IN  IF s.ro.condFresh THEN s1 ELSE [s1 EXCEPT !.ro.reason = "InRolling"]
+         IN  IF s.ro.condFresh THEN s1
+             ELSE IF ~s.tr.used THEN [s1 EXCEPT !.ro.reason = "InRolling"]
+             \* handleTrafficRouting: the release starts only once this Rollout's progressing finalizer is on the TrafficRouting object
+             ELSE IF ~s.tr.exists THEN s1
+             ELSE IF s.tr.prog > 0 THEN [s1 EXCEPT !.ro.reason = "InRolling"]
+             ELSE IF s.tr.phase \in {"Finalizing", "Terminating"} THEN s1
+             ELSE [s1 EXCEPT !.tr.prog = 1]
     [] old.reason = "InRolling" ->
          IF RolledBack(s, old) /\ WlCanaryRev(s) # old.canaryRev
          THEN [s EXCEPT !.ro.canaryRev = WlCanaryRev(s), !.ro.reason = "Cancelling"]
@@ -436,6 +452,43 @@ RoStep(s0) ==
               [] sE.ro.phase = "Disabled" -> IF ~sE.user.disabled THEN [sE EXCEPT !.ro.phase = "Healthy"] ELSE sE
               [] OTHER -> sE
   IN  RoDispatch(sF, old)
+
+\* in scenarios with a stand-alone TrafficRouting object the Rollout itself has no traffic routing
+RoStepAny(s) ==
+  IF ~s.tr.used THEN RoStep(s)
+  ELSE LET r == RoStep([s EXCEPT !.net.provIngress = FALSE, !.net.provGateway = FALSE])
+       IN  [r EXCEPT !.net.provIngress = s.net.provIngress, !.net.provGateway = s.net.provGateway]
+
+\* ------------------------------------- TrafficRouting object reconcile (pkg/controller/trafficrouting)
+\* only-traffic-routing mode: no canary Service is generated, the strategy is the object's own (weight 40 in the scenarios)
+TrStrategy == [rep |-> -1, pct |-> -1, traffic |-> 40, match |-> "", pause |-> -1, is100 |-> FALSE]
+TrDo(s) == IF ~s.net.hasSvc THEN [s |-> s, done |-> FALSE]
+           ELSE LET e == EnsureRoutes([s.net EXCEPT !.noCanarySvc = TRUE], TrStrategy)
+                IN  [s |-> [s EXCEPT !.net = [e.net EXCEPT !.noCanarySvc = s.net.noCanarySvc]], done |-> e.ok]
+TrFinalise(s) ==
+  LET r == FinalisingTrafficRouting([s EXCEPT !.net.noCanarySvc = TRUE])
+  IN  [s |-> [r.s EXCEPT !.net.noCanarySvc = s.net.noCanarySvc], done |-> ~r.retry]
+
+TrStep(s) ==
+  IF ~s.tr.exists THEN s
+  ELSE
+  LET t0 == s.tr
+      \* handleFinalizer runs FIRST: a deleting object loses the controller's finalizer before anything is cleaned
+      gone == t0.deleting /\ t0.prog = 0
+      s1 == IF t0.deleting THEN [s EXCEPT !.tr.finalizer = FALSE]
+            ELSE IF ~t0.finalizer THEN [s EXCEPT !.tr.finalizer = TRUE] ELSE s
+      ph == IF t0.deleting THEN "Terminating" ELSE IF t0.phase = "" THEN "Initial" ELSE t0.phase
+      r == CASE ph = "Initial" -> [s |-> s1, done |-> TRUE, ph |-> "Healthy"]
+             [] ph = "Healthy" -> [s |-> s1, done |-> TRUE, ph |-> IF t0.prog > 0 THEN "Progressing" ELSE "Healthy"]
+             [] ph = "Progressing" ->
+                  IF t0.prog = 0 THEN [s |-> s1, done |-> TRUE, ph |-> "Finalizing"]
+                  ELSE LET d == TrDo(s1) IN [s |-> d.s, done |-> d.done, ph |-> "Progressing"]
+             [] ph = "Finalizing" -> LET d == TrFinalise(s1) IN [s |-> d.s, done |-> d.done, ph |-> IF d.done THEN "Healthy" ELSE "Finalizing"]
+             [] ph = "Terminating" -> LET d == TrFinalise(s1) IN [s |-> d.s, done |-> d.done, ph |-> "Terminating"]
+             [] OTHER -> [s |-> s1, done |-> TRUE, ph |-> ph]
+  IN  IF gone THEN [r.s EXCEPT !.tr = GoneTr]                              \* the status update finds no object
+      ELSE IF r.done THEN [r.s EXCEPT !.tr.phase = r.ph, !.tr.obsOk = TRUE]
+      ELSE r.s
 
 \* ---------------------------------------------------- BatchRelease reconcile
 BrPlanned(s, b) == PlannedOf(s.br.plan[b + 1], s.wl.R)
@@ -727,6 +780,9 @@ UserSet(s, a) ==
     [] a = "user.rollback" -> {[Release(s, 1) EXCEPT !.user.rolledBack = TRUE]}
     [] a = "user.scale"    -> {DepDerive([s EXCEPT !.wl.R = r, !.wl.genOk = FALSE]) : r \in (1..12) \ {s.wl.R}}
     [] a \in JumpActs -> {[s EXCEPT !.ro.next = JumpTargetOf(a)]}
+    [] a = "user.trdelete" -> {IF ~s.tr.exists THEN s
+                               ELSE IF s.tr.finalizer \/ s.tr.prog > 0 THEN [s EXCEPT !.tr.deleting = TRUE, !.tr.obsOk = s.tr.obsOk]
+                               ELSE [s EXCEPT !.tr = GoneTr]}
     [] OTHER -> {s}
 
 \* ------------------------------------------------------------ the step function
@@ -743,20 +799,21 @@ ModelledCanary(p, a) ==
   /\ p.wl.exists /\ p.wl.kind = "Deployment" /\ p.wl.style = "canary"
   /\ a \in {"ro", "br", "tick"} \cup UserActs /\ p.wl.cd.n <= 1
 Modelled(p, a) ==
-  /\ ~p.tr.used        \* scenarios with a stand-alone TrafficRouting object are property-checked only
-  /\ (ModelledPartition(p, a) \/ ModelledCanary(p, a))
+  \/ ModelledPartition(p, a) \/ ModelledCanary(p, a)
+  \/ (p.tr.used /\ a \in {"tr", "user.trdelete"})
 
 \* successor set of one action (singletons for the deterministic controller reconciles)
 \* Deliberate deviation: whether a reconcile that changes nothing but status MESSAGES writes the status is not modelled
 \* (messages are not part of the abstract state); such a write also persists the corrected nextStepIndex.
 RoStepSet(p) ==
-  LET r == RoStep(p) IN
+  LET r == RoStepAny(p) IN
   IF /\ p.ro.exists /\ r.ro.exists /\ p.ro.hasSub /\ p.ro.phase = "Progressing" /\ p.ro.reason = "InRolling"
      /\ (p.ro.next <= 0 \/ p.ro.next > N(p)) /\ r.ro.next = p.ro.next
   THEN {r, [r EXCEPT !.ro.next = NextIdx(p, p.ro.step)]} ELSE {r}
 
 StepSet(p, a) ==
   CASE a = "ro" -> RoStepSet(p)
+    [] a = "tr" -> {TrStep(p)}
     [] a = "br" -> {BrStep(p)}
     [] a = "tick" -> {TickStep(p)}
     [] a \in EnvActs -> EnvSet(p, a)
@@ -766,10 +823,11 @@ StepSet(p, a) ==
 ModelView(s) == [ro |-> [s.ro EXCEPT !.rid = "", !.aux = ""], br |-> [s.br EXCEPT !.rid = "", !.obsRid = ""],
                  \* pod labels are decided by LabelPatch.tla (C12); the closed-loop model only reads the count
                  wl |-> [s.wl EXCEPT !.lab = <<>>, !.labelled = 0],
-                 net |-> [s.net EXCEPT !.svcSelKeys = 0], mem |-> s.mem, user |-> s.user]
+                 net |-> [s.net EXCEPT !.svcSelKeys = 0], mem |-> s.mem, user |-> s.user, tr |-> s.tr]
 
 RecDiff(a, b, pfx) == {pfx \o "." \o f : f \in {g \in DOMAIN a : a[g] # b[g]}}
 ViewDiff(a, b) ==
   RecDiff(a.ro, b.ro, "ro") \cup RecDiff(a.br, b.br, "br") \cup RecDiff(a.wl, b.wl, "wl")
     \cup RecDiff(a.net, b.net, "net") \cup RecDiff(a.mem, b.mem, "mem") \cup RecDiff(a.user, b.user, "user")
+    \cup RecDiff(a.tr, b.tr, "tr")
 =============================================================================
